@@ -19,6 +19,18 @@ POLYS = [[(5, 0), (3, 4)], [(3, 4), (-4, 3)], [(5, 0), (0, 0), (3, 4)], [(1, 1),
 TOL = 1e-9
 
 
+def _zig(n):
+    return [(4, 2) if i % 2 == 0 else (4, -2) for i in range(n)]
+
+
+# scale probes: long fixed polylines (anchored at the origin); the query point is symbolic inside a box (x0, x1, y0, y1) beside a chosen leg
+LONGPOLYS = {'zig40': _zig(39), 'zig70': _zig(69), 'outback': [(3, 0)] * 10 + [(2, 4)] + [(-3, 0)] * 10, 'spiral': [(8, 1), (1, 8), (-7, 1), (1, -6), (5, 1), (1, 4), (-3, 1), (1, -2)]}
+LONGBOXES = {'zig40': {31: (124.5, 127.5, -3, 5), 32: (128.5, 131.5, -3, 5), 0: (-2, 3.5, -3, 4), 38: (152.5, 158, -3, 5), 15: (60.5, 63.5, -2, 4)},
+             'zig70': {31: (124.5, 127.5, -3, 5), 63: (252.5, 255.5, -3, 5), 64: (256.5, 259.5, -3, 5), 68: (272.5, 278, -3, 5)},
+             'outback': {14: (17.5, 20.5, 2.25, 6), 3: (9.5, 11.5, -2, 1.75), 10: (29, 34, -1, 5)},
+             'spiral': {7: (2, 6, 1, 5), 0: (-1, 9, -2, 3)}}
+
+
 def qtol(scale):
     return z3.Q(1, 10 ** 9) * scale
 
@@ -36,6 +48,10 @@ def nearest_concrete(X, Y, x, y):
     return best
 
 
+# track mode: position of the observation that precedes the query point (on the other lane of the out-and-back reference: far in edge index, near in space)
+LONGFIRST = {'outback': {14: (19.0, 0.25), 3: (10.0, 3.75), 10: (0.25, 0.25)}, 'spiral': {7: (0.5, 0.25)}}
+
+
 class C20(Check):
     id = 'C20'
     title = 'Projecting a point on a polyline returns its nearest point'
@@ -44,7 +60,9 @@ class C20(Check):
              'geometry.abs is the builtin (proxies implement __abs__)']
     assumptions = ['segment directions come from a catalogue (%s); the segment is translated by a symbolic vector and the query point is symbolic, all in [-100, 100]' % (DIRS,),
                    'tolerance 1e-9 (absolute on squared quantities scaled by 1 + magnitude) absorbs the rounding of the concrete irrational lengths',
-                   '"no closer point exists" is decided with a free parameter mu in [0,1] in the negated query, per leg']
+                   '"no closer point exists" is decided with a free parameter mu in [0,1] in the negated query, per leg',
+                   'long fixed polylines (scale probes): anchored at the origin, query point symbolic in a box beside a chosen leg; legs whose bounding box is farther from the box than the '
+                   'farthest box corner is from a vertex of that leg are skipped in the "no closer point" query (they cannot carry a closer point)']
     extra_evidence = None
     outside = ['IEEE rounding, except for the bit-precise probe of the inclusion test on horizontal segments (thorough tier, job fp_axis)', 'directions outside the catalogue (similarity invariance is an argument, not a proof)', '3-D', 'polylines whose legs all have zero length']
     classes = {'vertical_segment': 'the segment (or a leg of the polyline) is vertical: x1 == x2'}
@@ -65,6 +83,14 @@ class C20(Check):
                 continue
             js.append(dict(kind='poly', poly=k, api='proj_polyligne'))
             js.append(dict(kind='poly', poly=k, api='mapOnTrack'))
+        q = tier == 'quick'
+        for name, legs in ((('zig40', [31]), ('outback', [14])) if q else [(k, sorted(v)) for k, v in LONGBOXES.items()]):
+            for leg in legs:
+                js.append(dict(kind='long', poly=name, leg=leg, api='proj_polyligne'))
+                if name in ('outback', 'spiral') or leg == 31:
+                    if not q:
+                        js.append(dict(kind='long', poly=name, leg=leg, api='mapOnTrack'))
+                    js.append(dict(kind='long', poly=name, leg=leg, api='mapOnTrack(track)'))
         if tier != 'quick':
             js.insert(0, dict(kind='fp_axis'))      # bit-precise (IEEE binary64) probe of the inclusion test on horizontal segments, decided by cvc5
         return js
@@ -76,7 +102,7 @@ class C20(Check):
     def _inputs(self, eng, inp, job):
         sym = inp is None
         g = (lambda nm: eng.real(nm, -100, 100)) if sym else (lambda nm: float(inp[nm]))
-        tx, ty = g('tx'), g('ty')
+        tx, ty = (g('tx'), g('ty')) if job['kind'] != 'long' else (0.0, 0.0)
         if job['kind'] == 'seg':
             dx, dy = job['d']
             X, Y = [tx, tx + dx], [ty, ty + dy]
@@ -87,6 +113,15 @@ class C20(Check):
                 lam = 0.0 if w == 'end0' else (1.0 if w == 'end1' else ((eng.real('lam', 0, 1)) if sym else float(inp['lam'])))
                 px, py = tx + lam * dx, ty + lam * dy
             return X, Y, px, py
+        if job['kind'] == 'long':
+            X, Y = [0.0], [0.0]
+            for dx, dy in LONGPOLYS[job['poly']]:
+                X.append(X[-1] + dx)
+                Y.append(Y[-1] + dy)
+            x0, x1, y0, y1 = LONGBOXES[job['poly']][job['leg']]
+            if sym:
+                return X, Y, eng.real('px', x0, x1), eng.real('py', y0, y1)
+            return X, Y, float(inp['px']), float(inp['py'])
         X, Y = [tx], [ty]
         for dx, dy in POLYS[job['poly']]:
             X.append(X[-1] + dx)
@@ -103,11 +138,19 @@ class C20(Check):
         from tracklib.core import Track, Obs, ENUCoords, ObsTime
         mp = sys.modules[MAP]
         tr = Track([Obs(ENUCoords(X[i], Y[i], 0.0), ObsTime.readUnixTime(float(i))) for i in range(len(X))])
+        if job['api'] == 'mapOnTrack(track)':
+            # track mode: a first observation at the start of the reference, then the query point; the second result is judged
+            fx, fy = LONGFIRST.get(job['poly'], {}).get(job['leg'], (X[0] + 0.25, Y[0] + 0.25))
+            qt = Track([Obs(ENUCoords(fx, fy, 0.0), ObsTime.readUnixTime(0.0)), Obs(ENUCoords(px, py, 0.0), ObsTime.readUnixTime(1.0))])
+            out = mp.mapOnTrack(qt, tr)
+            if out.size() != 2:
+                raise ValueError('mapOnTrack(track) did not return one observation per input observation')
+            return out.getObsAnalyticalFeature('dist', 1), out.getObs(1).position.getX(), out.getObs(1).position.getY(), out.getObsAnalyticalFeature('edge', 1)
         p, d, i = mp.mapOnTrack(ENUCoords(px, py, 0.0), tr)
         return d, p.getX(), p.getY(), i
 
     def _vertical(self, job):
-        legs = [job['d']] if job['kind'] == 'seg' else POLYS[job['poly']]
+        legs = [job['d']] if job['kind'] == 'seg' else (LONGPOLYS if job['kind'] == 'long' else POLYS)[job['poly']]
         return any(dx == 0 and dy != 0 for dx, dy in legs)
 
     def _fp_axis(self, ctx, job):
@@ -170,7 +213,7 @@ class C20(Check):
             ctx.fail('projection raised %s' % type(e).__name__, classes=cls)
             return
         ctx.reach()
-        ctx.observe(d=d, xp=xp, yp=yp, ip=ip)
+        ctx.observe(d=d)      # the point and the index are judged by the oracle; at an exact tie between two legs rounding may pick either
         n = len(X) - 1
         if not isinstance(ip, int) or not (0 <= ip < n):
             ctx.fail('returned segment index is not a segment of the polyline', classes=cls)
@@ -180,7 +223,7 @@ class C20(Check):
         dz, xz, yz = zreal(d), zreal(xp), zreal(yp)
         x1, y1, x2, y2 = Xz[ip], Yz[ip], Xz[ip + 1], Yz[ip + 1]
         ddx, ddy = x2 - x1, y2 - y1
-        legs = [job['d']] if job['kind'] == 'seg' else POLYS[job['poly']]
+        legs = [job['d']] if job['kind'] == 'seg' else (LONGPOLYS if job['kind'] == 'long' else POLYS)[job['poly']]
         L2c = float(legs[ip][0]) ** 2 + float(legs[ip][1]) ** 2
         cross = (xz - x1) * ddy - (yz - y1) * ddx
         dot = (xz - x1) * ddx + (yz - y1) * ddy
@@ -195,7 +238,21 @@ class C20(Check):
         if not ctx.prove(z3.And(dz >= 0, dz * dz - dist2 <= t2, dist2 - dz * dz <= t2),
                          'the returned distance is the distance from the query point to the returned point', classes=cls):
             return
+        far = set()
+        if job['kind'] == 'long':
+            # sound concrete pruning: U bounds the distance from any admissible query point to a vertex of the polyline (so, once 'no closer point'
+            # is proved for the legs kept, d <= U); a leg whose bounding box is farther than U from the query box cannot carry a closer point
+            x0, x1, y0, y1 = LONGBOXES[job['poly']][job['leg']]
+            vx, vy = X[job['leg']], Y[job['leg']]
+            U = max(math.hypot(cx - vx, cy - vy) for cx in (x0, x1) for cy in (y0, y1))
+            for j in range(n):
+                gapx = max(0.0, min(X[j], X[j + 1]) - x1, x0 - max(X[j], X[j + 1]))
+                gapy = max(0.0, min(Y[j], Y[j + 1]) - y1, y0 - max(Y[j], Y[j + 1]))
+                if math.hypot(gapx, gapy) > U + 1e-6 and j != job['leg']:
+                    far.add(j)
         for j in range(n):
+            if j in far:
+                continue
             mu = z3.Real('mu')
             sx, sy = Xz[j] + mu * (Xz[j + 1] - Xz[j]), Yz[j] + mu * (Yz[j + 1] - Yz[j])
             other = (P[0] - sx) * (P[0] - sx) + (P[1] - sy) * (P[1] - sy)
@@ -216,7 +273,7 @@ class C20(Check):
             d, xp, yp, ip = self._call(job, X, Y, px, py)
         except Exception as e:
             return dict(violation='projection of (%r, %r) on %r raised %s: %s' % (px, py, list(zip(X, Y)), type(e).__name__, e))
-        out = dict(d=float(d), xp=float(xp), yp=float(yp), ip=ip)
+        out = dict(d=float(d))
         best = nearest_concrete(X, Y, px, py)
         scale = 1.0 + abs(best)
         desc = 'query (%r, %r), polyline %r: returned d=%r point=(%r, %r) segment=%r' % (px, py, list(zip(X, Y)), float(d), float(xp), float(yp), ip)
